@@ -80,7 +80,6 @@ class ArgSpec:
                     text = f"{mantissa}.0e{exponent}"
                 return text
 
-
     @staticmethod
     def _spec_parameter_list_type_str(name: str, arg: ParameterListType) -> str:
         if arg:
@@ -128,7 +127,7 @@ def _convert_arg_to_type(
         if len(value) == 0:
             if NoneType in get_args(dest_type):
                 return None
-            else:
+            elif not isa(value, dest_type):
                 raise ValueError("Argument must contain a value")
 
     # first check if an individual value passes the type check
